@@ -6,6 +6,11 @@ report which properties raise VIOLATION)"""
 import os, sys, subprocess, shutil, tempfile, glob, re
 from concurrent.futures import ThreadPoolExecutor
 V = '/verif'
+# a private copy of the checker: rebuilding bin/mtverif during a sweep must not change its results
+import shutil as _sh, atexit as _ae
+BIN = tempfile.mkdtemp(prefix='mtverif-bin-') + '/mtverif'
+_sh.copy2(V + '/bin/mtverif', BIN)
+_ae.register(lambda: _sh.rmtree(os.path.dirname(BIN), ignore_errors=True))
 args = [a for a in sys.argv[1:] if not a.startswith('-')]
 root = args[0] if args else V + '/benign'
 jobs = 8
@@ -33,7 +38,7 @@ def run(p):
         r = subprocess.run(['git', 'apply', '--exclude=*_test.go', '--include=*.go', p], cwd=d, capture_output=True, text=True)
         if r.returncode:
             return name, None, None, 'PATCH DOES NOT APPLY'
-        r = subprocess.run([V + '/bin/mtverif', '-repo', d, '-property', 'all', '-no-evidence'], capture_output=True, text=True, env=env)
+        r = subprocess.run([BIN, '-repo', d, '-property', 'all', '-no-evidence'], capture_output=True, text=True, env=env)
         viol, und = [], []
         for l in r.stdout.split('\n'):
             m = re.match(r'^(C\d+) tier=\S+ .* violated=(\d+) undecided=(\d+)', l)
